@@ -98,11 +98,14 @@ CLAIMS = {
             'PARTIAL for spellings: text -> (mnemonic, operand values) is the hand-modelled parser; number spellings / whitespace are covered by the '
             'correspondence (model = implementation = specification = bytes computed independently by the generator), not by a grammar theorem.',
             'asm_parser.rs hand-modelled (tie B); Unicode classes taken from the implementation.'),
-    'C16': ('proof', 'PARTIAL. Theorems C16_text_is_specified (the text handed to the assembler is the C15-specified rendering, for every program in the domain), '
-            'C16_bytes_of_parsed_text (C13: bytes = specified encoding of whatever that text parses to) and C16_no_panic; the closing lemma '
-            'parse(render i) = operands of i is evaluated on every generated program (composed model = real disassemble+assemble = canonical-form '
-            'specification: canonical expressible programs reproduce exactly, others give their canonical form or are rejected), not proved for all field values.',
-            'Closing lemma of the round trip not proved (see DESIGN.md).'),
+    'C16': ('proof', 'Theorem C16_roundtrip: for every program in the disassembler\'s domain, of any length and all field values, disassembling (regenerated disassembler), '
+            'joining the lines and assembling (parser model + regenerated assembler.rs / ebpf.rs) returns the canonical form of the program when every instruction is '
+            'expressible (mnemonic known to the assembler, 32-bit immediates non-negative, any 64-bit lddw value) and an error otherwise; corollaries '
+            'C16_reproduces_program (canonical expressible programs give the original bytes) and C16_accepts_only_canonical (accepted => canonical form, never another '
+            'instruction). Rests on C15, C13 and the closing lemma C16_parser_reads_printed_text (digits printed by the formatter model are read back to the same '
+            'value; registers, 0x.. numbers, signed offsets, memory operands, operand lists, lines). Scope: all opcodes except tail_call and byte swaps of width other '
+            'than 16/32/64 (rejection evaluated, not proved). Correspondence: real disassemble+assemble = composed model = canonical-form specification.',
+            'asm_parser.rs hand-modelled (tie B); Rust formatting modelled by Fmt.v.'),
     'C14': ('proof', 'Theorem C14_assemble_total: for every input string (any Unicode scalar values, any classification of the non-ASCII ones) the assembler '
             'model returns Ok or Err -- never a panic (integer parsing, sign multiplication, operands[1], insn().unwrap()) and never fuel exhaustion (bounded time). '
             'Model: asm_parser.rs hand-modelled with the combine 4.6 semantics (committed / uncommitted failure, attempt, optional, or, many, sep_by, not_followed_by); '
